@@ -713,8 +713,20 @@ def cli_drive(ctx, cases, obs, broken, max_cases):
         variants = [base + ["--distance", str(c["dist"])]]
         if c["dist"] == 1:
             variants.append(base)                 # distance 1 is the default: also without the option
-        for opts, cpu in [(v, k) for v in variants for k in (["--force-one-cpu"], ["--max-cpu", "2"], ["--max-cpu", "16"])]:
-            rc, out, err, dt = vlib.sh([os.path.join(bindir, "obiclean")] + cpu + opts + [fa], timeout=120)
+        # the same records carrying the obiclean_* annotations of an earlier run (obiclean applied to its own output, e.g.
+        # with another ratio): what is written must describe THIS run's graph, not the stale values
+        fa_stale = os.path.join(wd, "in_stale.fasta")
+        with open(fa_stale, "w") as f:
+            for x in c["seqs"]:
+                stale = dict(count=sum(x["counts"].values()), merged_sample=x["counts"],
+                             obiclean_status={k: "i" for k in x["counts"]}, obiclean_weight={k: 99999 for k in x["counts"]},
+                             obiclean_mutation={"ghost_father": "(a)->(c)@1"}, obiclean_head=False, obiclean_headcount=77,
+                             obiclean_internalcount=77, obiclean_singletoncount=77, obiclean_samplecount=77)
+                f.write(">%s %s\n%s\n" % (x["id"], json.dumps(stale), x["seq"]))
+        runs_ = [(v, k, fa) for v in variants for k in (["--force-one-cpu"], ["--max-cpu", "2"], ["--max-cpu", "16"])]
+        runs_.append((variants[0], ["--max-cpu", "2"], fa_stale))
+        for opts, cpu, fa_ in runs_:
+            rc, out, err, dt = vlib.sh([os.path.join(bindir, "obiclean")] + cpu + opts + [fa_], timeout=120)
             got = None
             if rc == 0:
                 try:
@@ -722,7 +734,8 @@ def cli_drive(ctx, cases, obs, broken, max_cases):
                 except Exception as e:
                     err = "unparsable output: %r" % e
             if got != want:
-                ctx.violation("cli_%d" % ci, dict(property="C13", kind="command-output", case=c, argv=["obiclean"] + cpu + opts,
+                ctx.violation("cli_%d%s" % (ci, "_stale" if fa_ == fa_stale else ""), dict(property="C13", kind="command-output", case=c, argv=["obiclean"] + cpu + opts,
+                                                  input="records carrying obiclean_* annotations of an earlier run" if fa_ == fa_stale else "plain records",
                                                   rc=rc, stderr=err[-400:], got=got, expected=want))
                 return n
     return n
